@@ -153,6 +153,7 @@ pub fn c13() -> PropDef {
         assumptions: COMMON_ASSUMPTIONS,
         tiny: no_tiny,
         long: Some(({ let mut c = GenCfg::long_sched(); c.terms = vec![TermClass::Collect, TermClass::CollectIntoPrefixed, TermClass::CollectX, TermClass::ShortCircuit]; c }, 300, 2000)),
+        growth: Some(({ let mut c = GenCfg::growth_sched(); c.terms = vec![TermClass::Collect, TermClass::Collect, TermClass::CollectIntoPrefixed, TermClass::CollectX]; c }, 1200, 6000)),
     }
 }
 
@@ -321,5 +322,6 @@ pub fn c14() -> PropDef {
         assumptions: COMMON_ASSUMPTIONS,
         tiny: no_tiny,
         long: None,
+        growth: None,
     }
 }
